@@ -18,6 +18,11 @@ pub struct Planted {
     pub head: String,
     pub family: &'static str,
     pub binder_form: &'static str,
+    /// For the invisible mark at the start of a file: if no unexpected-symbol diagnostic is
+    /// produced at all (an implementation may choose to ignore such a mark; whether it may is
+    /// C09's business, not C15's), the second fault planted after the mark - if any - must be
+    /// pointed at instead, in the coordinates of the file as given.
+    pub fallback: Option<Option<(usize, usize, String)>>,
 }
 
 const DEF_NAMES: [&str; 10] = ["a", "b2", "é", "名", "λx", "x٣", "count", "_t", "ñandú", "w"];
@@ -81,6 +86,33 @@ fn indent(ch: &mut Ch) -> &'static str {
 pub fn plant(ch: &mut Ch) -> Planted {
     let nl = if ch.chance(1, 6) { "\r\n" } else { "\n" };
     let mut b = Builder { ch, text: String::new(), nl, defined: vec![] };
+    if b.ch.chance(1, 24) {
+        // An invisible mark (byte order mark, zero-width space, word joiner, soft hyphen) as the
+        // very first character of an otherwise valid or faulty file: it is not white space, so it
+        // is an unexpected symbol, and everything after it keeps its place.
+        let sym = ["\u{FEFF}", "\u{200B}", "\u{2060}", "\u{00AD}"][b.ch.pick(4)];
+        b.text.push_str(sym);
+        b.prefix_lines();
+        let (e, second): (String, Option<(usize, usize, String)>) = match b.ch.pick(3) {
+            0 => (b.int_expr(2), None),
+            1 => ("nope + 1".to_owned(), Some((0, 4, "Variable `nope` not in scope.".to_owned()))),
+            _ => ("1 + true".to_owned(), Some((4, 8, "This has type `bool`, but it should have type `int`:".to_owned()))),
+        };
+        let at = b.text.len();
+        b.text.push_str(&e);
+        if b.ch.chance(1, 2) {
+            b.text.push_str(nl);
+        }
+        return Planted {
+            text: std::mem::take(&mut b.text),
+            start: 0,
+            end: sym.len(),
+            head: format!("Unexpected symbol `{sym}`."),
+            family: "unexpected symbol: invisible mark at the very start of the file",
+            binder_form: "",
+            fallback: Some(second.map(|(s, e, h)| (at + s, at + e, h))),
+        };
+    }
     b.prefix_lines();
     // Optionally some (possibly non-ASCII) text earlier on the fault's own line.
     let same_line_def = b.ch.chance(1, 2);
@@ -125,7 +157,7 @@ pub fn plant(ch: &mut Ch) -> Planted {
             b.text.push_str(nl);
         }
         let head = "The definition of `ordz` references `ordy` (directly or indirectly), which will not be available in time during evaluation.".to_owned();
-        return Planted { text: std::mem::take(&mut b.text), start, end, head, family: "definition order: excerpt of the named definition", binder_form: "" };
+        return Planted { text: std::mem::take(&mut b.text), start, end, head, family: "definition order: excerpt of the named definition", binder_form: "", fallback: None };
     }
     let mut lead = String::new();
     if same_line_def && b.defined.len() < DEF_NAMES.len() && family_pick != 11 {
@@ -206,7 +238,7 @@ pub fn plant(ch: &mut Ch) -> Planted {
             (pre, "nope".to_owned(), post, "Variable `nope` not in scope.".to_owned(), "unbound name", "")
         }
         _ => {
-            let sym = ["$", "@", "\u{00A7}", "🙂", "$\u{0301}", "`", "\\", "👩\u{200D}💻"][b.ch.pick(8)];
+            let sym = ["$", "@", "\u{00A7}", "🙂", "$\u{0301}", "`", "\\", "👩\u{200D}💻", "\u{FEFF}", "\u{200B}"][b.ch.pick(10)];
             let (pre, post) = int_context(b.ch, nl);
             (pre, sym.to_owned(), post, format!("Unexpected symbol `{sym}`."), "unexpected symbol", "")
         }
@@ -238,7 +270,9 @@ pub fn plant(ch: &mut Ch) -> Planted {
     if b.ch.chance(1, 2) {
         b.text.push_str(nl);
     }
-    Planted { text: std::mem::take(&mut b.text), start, end, head, family, binder_form: form }
+    // An invisible mark that happens to be the first character of the file: see `fallback`.
+    let fallback = if start == 0 && matches!(fault.as_str(), "\u{FEFF}" | "\u{200B}") { Some(None) } else { None };
+    Planted { text: std::mem::take(&mut b.text), start, end, head, family, binder_form: form, fallback }
 }
 
 fn int_context(ch: &mut Ch, nl: &str) -> (String, String) {
@@ -274,6 +308,14 @@ pub fn diagnostics(text: &str) -> Result<Vec<String>, String> {
 pub fn check_planted(p: &Planted) -> Result<bool, Failure> {
     let input = format!("{:?} with the fault at bytes {}..{} ({:?})", p.text, p.start, p.end, &p.text[p.start..p.end]);
     let diags = diagnostics(&p.text).map_err(|e| Failure::new(format!("panic: {e}"), input.clone()).with_sig("panic"))?;
+    if let Some(fb) = &p.fallback {
+        if !diags.iter().any(|d| d.contains("Unexpected symbol")) {
+            return match fb {
+                None => Ok(false),
+                Some((s, e, head)) => check_planted(&Planted { text: p.text.clone(), start: *s, end: *e, head: head.clone(), family: p.family, binder_form: "", fallback: None }),
+            };
+        }
+    }
     // Some diagnostic must carry an excerpt that shows exactly the planted span (the wording of the
     // message is not part of the property; it is only used to explain a failure).
     let fault_text = &p.text[p.start..p.end];
@@ -669,7 +711,7 @@ fn deep_case(ctx: &Ctx, ch: &mut Ch) -> Outcome {
         ctx.class("deep: the replacement does not parse (replaced range cut through parentheses); skipped");
         return Ok(());
     }
-    let planted = Planted { text: mutated, start, end, head, family, binder_form: "" };
+    let planted = Planted { text: mutated, start, end, head, family, binder_form: "", fallback: None };
     let multi_line = check_planted(&planted)?;
     ctx.class(&format!("fault family: {family}"));
     ctx.class(&format!("deep: fault at depth {}", if depth >= 8 { ">= 8".to_owned() } else { depth.to_string() }));
@@ -691,7 +733,7 @@ pub fn def(tier: Tier) -> CheckDef {
     CheckDef {
         id: "C15",
         level: "exploration",
-        rule: "proptest-generated rejected programs with one planted fault of known byte span (unbound name; re-bound name in all eight binder forms; seven kinds of type fault whose offending subexpression is an atom, a parenthesised operator expression, or a multi-line conditional; stray symbols incl. emoji and combining sequences; a definition-order fault reached directly or through one or two functions, whose excerpt must show the right-hand side of the definition the message names), placed after 0-40 lines of definitions / comments / blank lines, after non-ASCII text on the same line, on indented continuation lines, with LF or CRLF, with and without a final line break; oracle = the diagnostic of the expected family exists and its excerpt shows exactly the spanned lines, their 1-based numbers, and overline columns equal to the span's characters (leading indentation of continuation lines and trailing whitespace optional); plus type-directed generated well-typed programs (optionally under a generated multi-line layout with comments) in which one subterm at a position whose expected type the syntax fixes (operand of an arithmetic or comparison operator, condition, applicand, annotation / domain / codomain) is replaced by a closed term of another type - some diagnostic must show exactly the replacement; plus, for generated programs under generated multi-line layouts, every subterm's source range lies in the file on character boundaries, nests in its parent's, and its text re-parses in that scope to the same subterm; non-trivial = fault not on line 1, or non-ASCII text before it on its line, or a multi-line span (for the range part: >= 5 subterms and a multi-line or non-ASCII layout); distinct by text",
+        rule: "proptest-generated rejected programs with one planted fault of known byte span (unbound name; re-bound name in all eight binder forms; seven kinds of type fault whose offending subexpression is an atom, a parenthesised operator expression, or a multi-line conditional; stray symbols incl. emoji, combining sequences and invisible marks (byte order mark, zero-width space), also as the very first character of the file; a definition-order fault reached directly or through one or two functions, whose excerpt must show the right-hand side of the definition the message names), placed after 0-40 lines of definitions / comments / blank lines, after non-ASCII text on the same line, on indented continuation lines, with LF or CRLF, with and without a final line break; oracle = the diagnostic of the expected family exists and its excerpt shows exactly the spanned lines, their 1-based numbers, and overline columns equal to the span's characters (leading indentation of continuation lines and trailing whitespace optional); plus type-directed generated well-typed programs (optionally under a generated multi-line layout with comments) in which one subterm at a position whose expected type the syntax fixes (operand of an arithmetic or comparison operator, condition, applicand, annotation / domain / codomain) is replaced by a closed term of another type - some diagnostic must show exactly the replacement; plus, for generated programs under generated multi-line layouts, every subterm's source range lies in the file on character boundaries, nests in its parent's, and its text re-parses in that scope to the same subterm; non-trivial = fault not on line 1, or non-ASCII text before it on its line, or a multi-line span (for the range part: >= 5 subterms and a multi-line or non-ASCII layout); distinct by text",
         assumptions: vec![
             "a type error about a parenthesised expression points at the expression including its parentheses (the parser documents that a group's range includes them)",
             "the overline row is compared in characters, as the property states",
@@ -710,7 +752,7 @@ pub fn def(tier: Tier) -> CheckDef {
                     for (text, fault, head) in REGRESSIONS {
                         let start = text.rfind(fault).unwrap();
                         let start = if head.contains("already exists") { text.find("{a}").unwrap() + 1 } else { start };
-                        let p = Planted { text: text.to_owned(), start, end: start + fault.len(), head: head.to_owned(), family: "regression", binder_form: if head.contains("already") { "{x} => e" } else { "" } };
+                        let p = Planted { text: text.to_owned(), start, end: start + fault.len(), head: head.to_owned(), family: "regression", binder_form: if head.contains("already") { "{x} => e" } else { "" }, fallback: None };
                         ctx.evaluated(1);
                         match check_planted(&p) {
                             Ok(_) => ctx.nontrivial(text),
